@@ -171,6 +171,8 @@ def gen_env_roles(rnd):
             (S.StructDef([M("plain", I(4)), M("plain", I(1))]), FIXED),
             (S.StructDef([M("plain", I(1)), M("plain", I(8))]), FIXED),
             (S.StructDef([M("plain", S.Flt(8))]), FIXED),
+            (S.StructDef([M("plain", I(4)), M("plain", I(4)), M("plain", I(4))]), FIXED),     # 12 bytes, 4-aligned
+            (S.StructDef([M("plain", I(2)), M("fixed", I(1), 3)]), FIXED),                      # 6 bytes, 2-aligned (5 + pad)
             (S.StructDef([M("opt", I(8))]), FIXED),
             (S.StructDef([M("lim", I(2), 3)]), FIXED),
             (S.StructDef([M("dyn", I(2))]), DYNAMIC),
@@ -184,6 +186,11 @@ def gen_env_roles(rnd):
         if prev is not None:
             menu.append((S.TypedefDef(R(1)), prev))
             menu.append((S.StructDef([M("plain", I(1)), M("plain", R(1))]), prev))
+            if prev == FIXED:
+                # unions whose largest arm is not the most aligned one
+                menu.append((S.UnionDef([{"d": 1, "t": I(8)}, {"d": 2, "t": R(1)}]), FIXED))
+                menu.append((S.UnionDef([{"d": 0, "t": R(1)}, {"d": 3, "t": I(2)}]), FIXED))
+                menu.append((S.StructDef([M("opt", R(1)), M("plain", I(1))]), FIXED))
         return rnd.choice(menu)
 
     d1, k1 = leaf(None)
@@ -257,3 +264,24 @@ def assign_shifts(rnd, defs):
                 continue
             any_ = any_ or m["n"] > 0
     return any_
+
+
+def gen_env_shared_sizer(rnd):
+    """Several arrays bound to ONE sizer (a shape the C++ full generator refuses,
+    so Python legs only): elements of every kind incl. structs, the last array
+    sometimes last in the struct, sizers of every width."""
+    I, M, R = S.Int, S.Mem, S.Ref
+    elem = rnd.choice([S.StructDef([M("plain", I(2)), M("plain", I(1))]),
+                       S.StructDef([M("plain", I(4))]),
+                       S.StructDef([M("plain", I(1)), M("plain", I(8))]),
+                       S.UnionDef([{"d": 1, "t": I(1)}, {"d": 2, "t": I(4)}]),
+                       S.EnumDef([1, 2, 7])])
+    ms = [M("plain", I(rnd.choice([1, 2, 4, 8])))]
+    if rnd.random() < 0.5:
+        ms.insert(0, M("plain", I(rnd.choice([1, 4]))))
+    sizer = len(ms)
+    for _ in range(rnd.randint(2, 3)):
+        ms.append(M("ext", rnd.choice([I(1), I(2), I(4), S.BYTE, R(1), R(1)]), 0, sizer))
+        if rnd.random() < 0.3:
+            ms.append(M("plain", I(rnd.choice([1, 2, 8]))))
+    return [elem, S.StructDef(ms)]
